@@ -45,6 +45,9 @@ def scenarios(ctx: Ctx, res: Result):
     for sc in gc.double_outage_family():
         res.count('double_outage_family')
         yield sc
+    for sc in gc.resync_retry_family():
+        res.count('resync_retry_family')
+        yield sc
     for sc in gc.readdress_family():
         res.count('readdress_family')
         yield sc
